@@ -95,10 +95,15 @@ def project(lines, proj):
             continue
         if k == 'err' and proj.get('err_codes') is not None and l.split()[2] not in proj['err_codes']:
             continue
+        if k == 'ierr' and l.split()[2] == '64':
+            continue        # MSOPTIMEOUT depends on wall-clock silence (e.g. the last select() before stop())
         if k == 'k':
             # model side carries "| spec ... | gen ..." suffixes
             l = l.split(' | ')[0]
         out.append(l)
+    if proj.get('ierr_last'):
+        # reports of the input thread are not ordered w.r.t. the decode thread's callbacks: compare them after everything else
+        out = [l for l in out if not l.startswith('ierr')] + sorted(l for l in out if l.startswith('ierr'))
     return out
 
 
